@@ -67,9 +67,9 @@ partial def gscP : P Gsc := do
   | _ => failure
 
 def levelP : P LevelCfg := do
-  let e ← engineP; let g ← nat; let p ← nat; let l ← lscP; let s ← nat; let el ← bool
+  let e ← engineP; let c ← tok; let g ← nat; let p ← nat; let l ← lscP; let s ← nat; let el ← bool
   let box ← list (do let lo ← rat; let hi ← rat; pure (lo, hi))
-  pure ⟨e, g, p, l, s, el, box⟩
+  pure ⟨e, c, g, p, l, s, el, box⟩
 
 def genP : P Sprout.Generator := do
   let t ← tok
@@ -173,7 +173,7 @@ def showEngine : Engine → String
 
 def dumpDeme (cfg : Cfg) (full : Bool) (d : Deme) : String :=
   let mx := cfg.maximize
-  let cls := match cfg.levels[d.level]? with | some lc => showEngine lc.engine | none => "?"
+  let cls := match cfg.levels[d.level]? with | some lc => lc.cls | none => "?"
   let head := s!"D {showId d.id} {d.level} {(d.parent.map showId).getD "-"} {d.startedAt} {showBool d.active} {showBool d.hib} {d.counter} [{",".intercalate (d.children.map showId)}] seed {showOptInd d.seed} me {d.metaepochs} gens {d.gens.length} cls {cls} best {showOptInd (Select.best mx d.allInds)}"
   if full then
     head ++ " hist " ++ " / ".intercalate (d.hist.map fun m => " ; ".intercalate (m.map fun g => showList showInd g.inds))
